@@ -177,21 +177,9 @@ func RuleDIncludePath(c *core.Ctx) {
 	}
 	// the file parameter: the string parameter that flows into os.ReadFile
 	var fileParam *ssa.Parameter
-	core.EachInstr(parseRec, func(ins ssa.Instruction) {
-		call, ok := ins.(*ssa.Call)
-		if !ok {
-			return
-		}
-		callee := call.Call.StaticCallee()
-		if callee == nil || callee.Pkg == nil || callee.Pkg.Pkg.Path() != "os" || callee.Name() != "ReadFile" {
-			return
-		}
-		for v := range originSet(p, call.Call.Args[0], 0) {
-			if prm, ok := v.(*ssa.Parameter); ok && prm.Parent() == parseRec {
-				fileParam = prm
-			}
-		}
-	})
+	if i := fileReadParam(p, parseRec, 0); i >= 0 {
+		fileParam = parseRec.Params[i]
+	}
 	if fileParam == nil {
 		c.Anchor(rule, "the file parameter of syntax.parseRec (argument of os.ReadFile)")
 		return
@@ -271,4 +259,46 @@ func RuleDIncludePath(c *core.Ctx) {
 		c.Ob(rule, "syntax.parseRec:recursive call", parseRec.Pos(), core.FuncName(parseRec), core.Undecided, "no recursive call of parseRec found in its closures")
 	}
 	c.Floor(rule, 1)
+}
+
+// fileReadParam: the index of the string parameter of fn that names a file fn
+// reads — it flows into os.ReadFile/Open/OpenFile in fn or, through an
+// argument, in a module helper fn calls (three levels). -1 if none.
+func fileReadParam(p *core.Prog, fn *ssa.Function, depth int) int {
+	if fn == nil || fn.Blocks == nil || depth > 3 {
+		return -1
+	}
+	res := -1
+	core.EachInstr(fn, func(ins ssa.Instruction) {
+		call, ok := ins.(ssa.CallInstruction)
+		if !ok {
+			return
+		}
+		callee := call.Common().StaticCallee()
+		if callee == nil {
+			return
+		}
+		argIdx := -1
+		if callee.Pkg != nil && callee.Pkg.Pkg.Path() == "os" {
+			switch callee.Name() {
+			case "ReadFile", "Open", "OpenFile":
+				argIdx = 0
+			}
+		} else if p.InModule(callee) && callee != fn {
+			argIdx = fileReadParam(p, callee, depth+1)
+		}
+		if argIdx < 0 || argIdx >= len(call.Common().Args) {
+			return
+		}
+		for v := range originSet(p, call.Common().Args[argIdx], 0) {
+			if prm, ok := v.(*ssa.Parameter); ok && prm.Parent() == fn {
+				for i, q := range fn.Params {
+					if q == prm {
+						res = i
+					}
+				}
+			}
+		}
+	})
+	return res
 }
